@@ -221,7 +221,26 @@ func checkC18(c *Check) {
 					args = []Expr{sl("k1"), a, sl("k3")}
 				}
 				key := fmt.Sprintf("arg/%s/%s/%s", vn, pos, form)
-				add(b.finish(key, ExprStmt{AppCall{[]AppStage{stage(b, "p_rec", args...)}}}, pr(sl("done"))))
+				if (len(vn)+len(form))%2 == 0 {
+					add(b.finish(key, ExprStmt{AppCall{[]AppStage{stage(b, "p_rec", args...)}}}, pr(sl("done"))))
+				} else {
+					// the same argument list in a captured call
+					add(b.finish(key+"/captured", VarDecl{Names: []string{"o", "e", "code"}, Short: true, Values: []Expr{AppCall{[]AppStage{stage(b, "p_rec", args...)}}}}, pr(framed(vr("o")), vr("code")), pr(sl("done"))))
+				}
+			}
+		}
+	}
+	// characters that are special to formatting layers between source and script (%), always in captured calls too
+	for vi, v := range []string{"%", "a%c", "100%s", "%d items", "%%", "a%", "%!", "%[1]s", "50%%off", "%x%y"} {
+		for _, capture := range []bool{false, true} {
+			b := newC18()
+			a, _ := b.arg(v, "literal")
+			a2, _ := b.arg(v, "variable")
+			st := stage(b, "p_rec", a, sl("mid"), a2)
+			if capture {
+				add(b.finish(fmt.Sprintf("format-characters/%d/captured", vi), VarDecl{Names: []string{"o", "e", "code"}, Short: true, Values: []Expr{AppCall{[]AppStage{st}}}}, pr(framed(vr("o")), vr("code"))))
+			} else {
+				add(b.finish(fmt.Sprintf("format-characters/%d/statement", vi), ExprStmt{AppCall{[]AppStage{st}}}, pr(sl("done"))))
 			}
 		}
 	}
@@ -299,10 +318,34 @@ func checkC18(c *Check) {
 		}
 		add(bc)
 	}
+	// a program given by a path is run from that path and from nowhere else: the working directory is not in
+	// PATH here, and PATH holds another program of the same base name that records under another name
+	for _, nm := range []struct{ key, name, dir string }{{"dot-slash", "./p_rec", ""}, {"dot-slash-subdir", "./bin/p_rec", "bin"}, {"subdir", "bin/p_rec", "bin"}, {"parent-hop", "bin/../p_rec", "bin"}, {"double-slash", ".//p_rec", ""}, {"dot-inside", "bin/./p_rec", "bin"}} {
+		for _, capture := range []bool{false, true} {
+			b := newC18()
+			st := AppStage{Name: nm.name, NameLit: true, Args: []Expr{sl("a"), sl("b c")}}
+			var body []Stmt
+			if capture {
+				body = []Stmt{VarDecl{Names: []string{"o", "e", "code"}, Short: true, Values: []Expr{AppCall{[]AppStage{st}}}}, pr(framed(vr("o")), vr("code"))}
+			} else {
+				body = []Stmt{ExprStmt{AppCall{[]AppStage{st}}}, pr(sl("done"))}
+			}
+			bc := b.finish(fmt.Sprintf("progname-by-path/%s/capture=%v", nm.key, capture), body...)
+			bc.PathSandbox = false
+			if nm.dir != "" {
+				bc.PreDirs = []string{nm.dir}
+			}
+			clean := filepath.Clean(nm.name)
+			bc.Tools = map[string]string{clean: probePath()}
+			add(bc)
+		}
+	}
 	// pipelines, capture, statuses, trailing newlines
 	outputs := map[string]string{"none": "", "no-newline": "abc", "one-newline": "abc\n", "two-lines": "l1\nl2\n", "three-newlines": "abc\n\n\n", "inner-blank-lines": "a\n\nb\n", "blanks": "  a  b  \n", "only-newline": "\n", "glob": "*\n", "dash-n": "-n\n",
 		// white space at the end that is not the one trailing newline
-		"trailing-blank": "a b c ", "trailing-tab": "abc\t", "only-blank": " ", "only-tab": "\t", "blank-then-newline": "abc \n", "tab-then-newline": "abc\t\n", "trailing-cr": "abc\r", "cr-lf": "abc\r\n", "trailing-blanks-two-lines": "l1 \nl2  ", "trailing-vt-ff": "abc\v\f"}
+		"trailing-blank": "a b c ", "trailing-tab": "abc\t", "only-blank": " ", "only-tab": "\t", "blank-then-newline": "abc \n", "tab-then-newline": "abc\t\n", "trailing-cr": "abc\r", "cr-lf": "abc\r\n", "trailing-blanks-two-lines": "l1 \nl2  ", "trailing-vt-ff": "abc\v\f",
+		// letters a back end may use as guard or marker
+		"ends-in-x-newline": "linux\n", "only-x-newline": "x\n", "only-x": "x", "ends-in-xx": "0xx\n", "x-two-newlines": "ax\n\n", "ends-in-X": "MAX\n", "ends-in-underscore": "a_\n", "ends-in-dot": "end.\n", "ends-in-e": "done\n", "ends-in-n": "n\n", "ends-in-backslash-n-text": "a\\n\n", "ends-in-percent": "100%\n", "ends-in-0": "10\n"}
 	statuses := []int{0, 1, 2, 7, 126, 127, 255}
 	onames := sortedKeys(func() map[string]string {
 		m := map[string]string{}
